@@ -1,2 +1,3 @@
 import Sonic.Go.Prelude
 import Sonic.Props.C10
+import Sonic.Props.C19
